@@ -2,6 +2,7 @@
 E1 over section orders, title spellings, body shapes and steering decoys; the
 expected content is known by construction."""
 import itertools
+import os
 
 import numpy as np
 
@@ -203,6 +204,22 @@ def build(pt):
     return text, abstract, exp
 
 
+def _scratch():
+    out = os.path.join(os.path.dirname(os.path.dirname(os.path.dirname(os.path.abspath(__file__)))), "out", "c05.%d" % os.getpid())
+    os.makedirs(out, exist_ok=True)
+    return out
+
+
+REUSE_FIRST = ("~V\nVERS. 1.2 : v\nWRAP. NO : w\nDLM. COMMA : d\n~W\nSTRT.M 1 : s\nSTOP.M 2 : s\nSTEP.M 1 : s\nNULL. 10.0 : n\n"
+               "~C\nD.M : d\nG. : g\nH. : h\n~A\n1,5,7\n2,6,8\n")
+
+
+def end_of_unit():
+    import shutil
+    shutil.rmtree(os.path.join(os.path.dirname(os.path.dirname(os.path.dirname(os.path.abspath(__file__)))), "out", "c05.%d" % os.getpid()),
+                  ignore_errors=True)
+
+
 def check_point(pt):
     from ..core import inputs as _inputs
     _inputs.process_prelude()   # explored in a process that has already read many other files (see core/inputs.py)
@@ -220,6 +237,43 @@ def check_point(pt):
     except Exception as e:
         return [V("read-raises", "a successful read", "%s: %s" % (type(e).__name__, str(e)[:160]))], nontriv, "raise", {}, 1
     vio = []
+    if pt["engine"] == "normal":
+        # the same text read into a LASFile object that has read ANOTHER file before (LASFile.read called twice): the
+        # other file's steering items (DLM COMMA, NULL 10.0) say nothing about this text
+        try:
+            import io
+            obj = lasio.LASFile()
+            obj.read(io.StringIO(REUSE_FIRST), engine=pt["engine"])
+            obj.read(io.StringIO(text), engine=pt["engine"], ignore_data=pt.get("ignore_data", False))
+            a = canon.las_tag(las, "strict")
+            b = canon.las_tag(obj, "strict")
+            sa, sb = dict(a["sections"]), dict(b["sections"])
+            diff = [k for k in sa if sa[k] != sb.get(k)]
+            if diff or a.get("curves") != b.get("curves"):
+                vio.append(V("second-read-on-same-object-differs", "sections and data of this text as in a fresh read",
+                             {"sections": diff, "data": "differs" if a.get("curves") != b.get("curves") else "equal"}))
+        except Exception as e:
+            vio.append(V("second-read-on-same-object-raises", "reads like a fresh object", "%s: %s" % (type(e).__name__, str(e)[:160])))
+    if pt["engine"] == "numpy":
+        # the same content from a FILE whose path was read just before with the sections in another order (same bytes
+        # count): what was learnt about that file's layout says nothing about this one
+        try:
+            path = os.path.join(_scratch(), "c05.las")
+            other = dict(pt, order=pt["order"][1:] + pt["order"][:1])
+            with open(path, "w", encoding="utf-8", newline="") as f:
+                f.write(build(other)[0])
+            lasio.read(path, engine=pt["engine"], ignore_data=pt.get("ignore_data", False), encoding="utf-8")
+            with open(path, "w", encoding="utf-8", newline="") as f:
+                f.write(text)
+            lasp = lasio.read(path, engine=pt["engine"], ignore_data=pt.get("ignore_data", False), encoding="utf-8")
+            a = canon.las_tag(las, "strict")
+            b = canon.las_tag(lasp, "strict")
+            if a != b:
+                vio.append(V("path-read-differs-from-string-read", "same result from the file as from the string", canon.diff_tags(a, b)))
+        except Exception as e:
+            vio.append(V("path-read-raises", "the file reads like the string", "%s: %s" % (type(e).__name__, str(e)[:160])))
+        finally:
+            pass
     xkey = TITLES["X"][pt["tX"]][1:]
     want_keys = {"Version", "Well", "Curves", "Parameter", "Other", xkey} | set(abstract["extras"])
     got_keys = set(las.sections.keys())
